@@ -13,6 +13,7 @@ PATCH=$OUT/patch$K.diff
 DEMO=$(ls $OUT/demo$K* 2>/dev/null | head -1)
 [ -f "$PATCH" ] || { echo "no $PATCH"; exit 2; }
 git -C $WT checkout -q -- . ; git -C $WT clean -fdq
+git -C $WT checkout -q --detach $(git -C /repo rev-parse HEAD)   # validate against the current tree
 rundemo() { # runs the demo in $WT, returns its status
   case "$DEMO" in
     *_test.go) cp "$DEMO" $WT/$PKG/zz_seeded_demo_test.go; (cd $WT && $GO test -vet=off -count=1 -run 'TestSeeded' ./$PKG/ >/tmp/seed-demo.log 2>&1); r=$?; rm -f $WT/$PKG/zz_seeded_demo_test.go; return $r;;
